@@ -24,8 +24,9 @@
 (*                                                                         *)
 (* `form` restricts the sequences to those a macro expansion can produce   *)
 (* (macros/src/span.rs): "plain" = #[span] without result levels, "setup"  *)
-(* = plain with a `setup:` function, "result" = with ok_lvl / err_lvl,     *)
-(* "resultM" = result with an `err:` mapper, "guard" = with the `guard:`   *)
+(* = plain with a `setup:` function, "result" = with ok_lvl and err_lvl    *)
+(* ("result_o" / "result_e": only one of them), "resultM" = result with an *)
+(* `err:` mapper ("resultM_m": the mapper alone), "guard" = with `guard:`  *)
 (* parameter, "newspan" = new_span! and manual handling of the guard;      *)
 (* "none" = SpanGuard::new used directly, any order and multiplicity.      *)
 (***************************************************************************)
@@ -39,7 +40,7 @@ CONSTANTS
     WithComps,   \* completions with_completion may be given
     CwComps,     \* completions complete_with may be given
     Scripts,     \* clock scripts <<reading at 1st now(), reading at 2nd now()>>, 0 = None
-    Forms,       \* subset of {"none", "plain", "setup", "result", "resultM", "guard", "newspan"}
+    Forms,       \* subset of {"none", "plain", "setup", "guard", "newspan"} \cup ResultForms
     Frames,      \* subset of {"in", "out"}: operations run inside / after the span's frame
     MaxLen,      \* 0, or: at most MaxLen non-terminal operations after New (hist in the view)
     F2Bug,       \* TRUE: transcribe with_completion as found (defect F2)
@@ -49,10 +50,35 @@ NoComp == "none"
 NoR == 0
 
 \* the default completions (span::completion::Default) and their configuration
-DefaultKinds == {"dflt", "dfltL"}
-ResultKinds == {"ok", "err", "errM"}     \* errM: the error passed through an `err:` mapper
-CfgLvl(c) == IF c = "dfltL" THEN "info" ELSE "none"        \* with_lvl
-CfgPanicLvl(c) == IF c = "dfltL" THEN "warn" ELSE "none"   \* with_panic_lvl
+\* The level control parameters, each absent or present.
+\* Default completions (span::completion::Default; what #[span] / new_span! install):
+\*   dflt  = no level, no panic level           (#[span])
+\*   dfltl = level info, no panic level         (#[info_span], .with_lvl)
+\*   dfltp = no level, panic level warn         (#[span(panic_lvl)], .with_panic_lvl)
+\*   dfltL = level info and panic level warn
+DefaultKinds == {"dflt", "dfltl", "dfltp", "dfltL"}
+HasLvl(c) == c \in {"dfltl", "dfltL"}
+HasPanicLvl(c) == c \in {"dfltp", "dfltL"}
+CfgLvl(c) == IF HasLvl(c) THEN "info" ELSE "none"             \* with_lvl
+CfgPanicLvl(c) == IF HasPanicLvl(c) THEN "warn" ELSE "none"   \* with_panic_lvl
+\* Result completions (generated for ok_lvl / err_lvl / err):
+\*   ok / err   = ok_lvl debug / err_lvl warn given
+\*   okD / errD = ok_lvl / err_lvl absent: the expansion falls back to the span's level
+\*   errM / errMD = the same two with the error passed through an `err:` mapper
+OkKinds == {"ok", "okD"}
+ErrKinds == {"err", "errD", "errM", "errMD"}
+ResultKinds == OkKinds \cup ErrKinds
+MacroOnlyKinds == {"okD", "errD", "errM", "errMD"}   \* only the expansion builds these
+\* forms with result completions and what each passes: both levels / ok_lvl only /
+\* err_lvl only / both + mapper / mapper only
+ResultForms == {"result", "result_o", "result_e", "resultM", "resultM_m"}
+KindsOfForm(f) ==
+    CASE f = "result" -> {"ok", "err"}
+      [] f = "result_o" -> {"ok", "errD"}
+      [] f = "result_e" -> {"okD", "err"}
+      [] f = "resultM" -> {"ok", "errM"}
+      [] f = "resultM_m" -> {"okD", "errMD"}
+      [] OTHER -> {"ok", "err"}
 
 VARIABLES
     phase,      \* "init" (no guard yet), "live", "done" (guard consumed)
@@ -81,19 +107,24 @@ NoTerm == [op |-> "none", c |-> NoComp, pan |-> FALSE]
 -----------------------------------------------------------------------------
 (* Level B: transcription *)
 
-\* span::completion::Default::complete: level and error it adds
-BLvl(c, pan) ==
+\* span::completion::Default::complete: level and error it adds; the result completions
+\* carry the level the expansion chose (macros/src/span.rs result_completion): dc is the
+\* guard's default completion, i.e. the span's own level
+BLvl(c, pan, dc) ==
     IF c \in DefaultKinds
     THEN IF pan THEN (IF CfgPanicLvl(c) # "none" THEN CfgPanicLvl(c) ELSE "error")
          ELSE CfgLvl(c)
-    ELSE IF c = "ok" THEN "debug"      \* ok_lvl of the fixtures
-    ELSE IF c \in {"err", "errM"} THEN "warn"      \* err_lvl of the fixtures
+    ELSE IF c = "ok" THEN "debug"                        \* ok_lvl of the fixtures
+    ELSE IF c = "okD" THEN CfgLvl(dc)                    \* .or_else(default_lvl)
+    ELSE IF c \in {"err", "errM"} THEN "warn"            \* err_lvl of the fixtures
+    ELSE IF c \in {"errD", "errMD"}                      \* .or_else(default_lvl).unwrap_or(error)
+         THEN (IF CfgLvl(dc) # "none" THEN CfgLvl(dc) ELSE "error")
     ELSE "na"
 BErr(c, pan) ==
     IF c \in DefaultKinds THEN (IF pan THEN "panicked" ELSE "none")
-    ELSE IF c = "ok" THEN "none"
-    ELSE IF c = "err" THEN "some"
-    ELSE IF c = "errM" THEN "mapped"   \* what the mapper returned
+    ELSE IF c \in OkKinds THEN "none"
+    ELSE IF c \in {"err", "errD"} THEN "some"
+    ELSE IF c \in {"errM", "errMD"} THEN "mapped"   \* what the mapper returned
     ELSE "na"
 
 \* Timer::extent
@@ -108,7 +139,7 @@ Fires(gr) == gr.st = "Started" /\ gr.hasData /\ gr.comp # NoComp
 \* the call made when the triple matches; c is the completion used
 CallOf(gr, c, endR, pan) ==
     [cid |-> c, mdl |-> gr.mdl, name |-> gr.name, props |-> gr.props,
-     extent |-> BExtent(gr.startR, endR), lvl |-> BLvl(c, pan), err |-> BErr(c, pan)]
+     extent |-> BExtent(gr.startR, endR), lvl |-> BLvl(c, pan, gr.comp), err |-> BErr(c, pan)]
 
 \* complete_default on guard gr (pan: the thread is panicking); <<calls, readings>>
 CompleteDefault(gr, pan, np) ==
@@ -131,7 +162,7 @@ Allowed(op) ==
        ELSE IF form = "newspan" THEN op \in TypeKeeping   \* new_span!: nothing is automatic
        ELSE IF g.st = "Initial" THEN op = "Start"     \* the expansion starts the guard first
        ELSE IF form \in {"plain", "setup"} THEN op \in {"Drop", "DropWhilePanicking"}
-       ELSE IF form \in {"result", "resultM"}
+       ELSE IF form \in ResultForms
             THEN op \in {"CompleteWithResult", "DropWhilePanicking"}
        ELSE op \in TypeKeeping
 \* forms in which the body has the guard in hand (explicit terminal operations)
@@ -261,9 +292,9 @@ CompleteWith(c, pan) ==
 \* the result-aware completions generated by the macro; x names the exit path of the body
 CompleteWithResult(c, x) ==
     /\ c \in ResultKinds \cap CwComps
-    /\ c \in (IF form = "resultM" THEN {"ok", "errM"} ELSE {"ok", "err"})
+    /\ c \in KindsOfForm(form)
     /\ IF form = "none" THEN x \in {"", "pan"}
-       ELSE x \in (IF c = "ok" THEN {"ok", "early_ok"} ELSE {"q_err", "early_err"})
+       ELSE x \in (IF c \in OkKinds THEN {"ok", "early_ok"} ELSE {"q_err", "early_err"})
     /\ CompleteWithAs(IF form = "none" THEN "CompleteWith" ELSE "CompleteWithResult", c, x,
                       x = "pan")
 
@@ -305,17 +336,26 @@ AStartR == Reading(1)      \* the reading taken at (the first) start
 AEndR == Reading(2)        \* the reading taken at completion
 AMustComplete == verdict /\ aStarted
 
-\* "panic unwinding ... adds an error and the panic level"
-ALvl(c, pan) ==
+\* The level of the completed span as a function of the exit path and of the control
+\* parameters lvl / ok_lvl / err_lvl / panic_lvl, each absent or present (the macro
+\* documentation): a panic gives panic_lvl, else error - never the ordinary level; Ok gives
+\* ok_lvl, else the span's level, else none; Err gives err_lvl, else the span's level, else
+\* error; any other exit the span's level.  sc = the span's default completion.
+ASpanLvl(sc) == IF sc \in {"dfltl", "dfltL"} THEN "info" ELSE "none"
+ALvl(c, pan, sc) ==
     IF c \in DefaultKinds
-    THEN IF pan THEN (IF c = "dfltL" THEN "warn" ELSE "error")
-         ELSE (IF c = "dfltL" THEN "info" ELSE "none")
-    ELSE IF c = "ok" THEN "debug" ELSE IF c \in {"err", "errM"} THEN "warn" ELSE "na"
+    THEN IF pan THEN (IF c \in {"dfltp", "dfltL"} THEN "warn" ELSE "error")
+         ELSE ASpanLvl(c)
+    ELSE IF c = "ok" THEN "debug"
+    ELSE IF c = "okD" THEN ASpanLvl(sc)
+    ELSE IF c \in {"err", "errM"} THEN "warn"
+    ELSE IF c \in {"errD", "errMD"} THEN (IF ASpanLvl(sc) # "none" THEN ASpanLvl(sc) ELSE "error")
+    ELSE "na"
 \* errM: "the mapped error must be the err of the completed span"
 AErr(c, pan) ==
     IF c \in DefaultKinds THEN (IF pan THEN "panicked" ELSE "none")
-    ELSE IF c = "ok" THEN "none" ELSE IF c = "err" THEN "some"
-    ELSE IF c = "errM" THEN "mapped" ELSE "na"
+    ELSE IF c \in OkKinds THEN "none" ELSE IF c \in {"err", "errD"} THEN "some"
+    ELSE IF c \in {"errM", "errMD"} THEN "mapped" ELSE "na"
 \* The statement gives the panic level and error for the scope-exit path (the guard dropped
 \* by unwinding).  For an explicit complete / complete_with made while unwinding it only
 \* says "exactly once": lvl / err then carry what the code does (level B) and are not part
@@ -329,7 +369,7 @@ AExpected ==
     THEN <<[cid |-> ACid, mdl |-> aMdl, name |-> aName, props |-> aProps,
             extent |-> IF AStartR # NoR /\ AEndR # NoR THEN <<AStartR, AEndR>> ELSE <<>>,
             extentAny |-> ~(AStartR # NoR /\ AEndR # NoR),
-            lvl |-> ALvl(ACid, aTerm.pan), err |-> AErr(ACid, aTerm.pan),
+            lvl |-> ALvl(ACid, aTerm.pan, aComp), err |-> AErr(ACid, aTerm.pan),
             lvlAny |-> ALvlAny(aTerm)]>>
     ELSE <<>>
 
@@ -355,7 +395,7 @@ ProbeTerms ==
          \cup {[op |-> "Drop", c |-> NoComp, pan |-> FALSE],
                [op |-> "DropWhilePanicking", c |-> NoComp, pan |-> TRUE]}
          \cup {[op |-> "CompleteWith", c |-> c, pan |-> pan] : pan \in BOOLEAN,
-                  c \in IF form = "none" THEN CwComps \ {"errM"} ELSE CwComps \ ResultKinds}
+                  c \in IF form = "none" THEN CwComps \ MacroOnlyKinds ELSE CwComps \ ResultKinds}
 ProbeCid(t) == IF t.op = "CompleteWith" THEN t.c ELSE aComp
 \* the completion predicted for a terminal operation, up to cid / lvl / err (in Probes)
 ProbeBase ==
@@ -371,7 +411,7 @@ ProbeOf(t) ==
       IF t.op \in {"Complete", "CompleteWith"}
       THEN (IF AMustComplete THEN "true" ELSE "false") ELSE "na",
       IF AMustComplete THEN 1 ELSE 0,
-      ProbeCid(t), ALvl(ProbeCid(t), t.pan), AErr(ProbeCid(t), t.pan), t.pan, ALvlAny(t)>>
+      ProbeCid(t), ALvl(ProbeCid(t), t.pan, aComp), AErr(ProbeCid(t), t.pan), t.pan, ALvlAny(t)>>
 Probes == {ProbeOf(t) : t \in ProbeTerms}
 
 TypeOK ==
@@ -399,7 +439,7 @@ CarriesLatestData ==
                     /\ calls[1].props = aProps /\ calls[1].cid = ACid
 
 PanicAddsErrAndLevel ==
-    calls # <<>> => /\ calls[1].lvl = ALvl(ACid, aTerm.pan)
+    calls # <<>> => /\ calls[1].lvl = ALvl(ACid, aTerm.pan, aComp)
                     /\ calls[1].err = AErr(ACid, aTerm.pan)
 
 \* level B produces exactly the completion of level A (everything above in one)
